@@ -1,7 +1,8 @@
 """C06 — frontend-side parsers accept only the matching reply, survive hostile peers."""
 from .fe import FeFamily
+from .c18_extra import ProxyPeerMut, BeSrvMalformed, GpuFamily   # C18 machinery: proxy / GPU proxy / frontend request server
 
-PROPS_MODULES = ["C06"]
+PROPS_MODULES = ["C06", "C06b"]
 RULE = ("family `fe` (peer mode): the raw peer answers each request with the correct reply or with the correct reply mutated in one "
         "field (code, REPLY flag, each other flag bit, version, size, a body byte, 0..3 descriptors, truncation, extra bytes) or "
         "with random strings, then closes; the frontend may return success only for a conforming reply and then exactly the "
@@ -15,4 +16,5 @@ class MutFe(FeFamily):
         return bool(m) and m[0] not in ("r=-", "r=close")
 
 
-FAMILIES = [MutFe(modes=("peer", "mut"), quick=(800, 0, 4000) if False else (0, 800, 4000), thorough=(0, 10000, 100000))]
+FAMILIES = [MutFe(modes=("peer", "mut"), quick=(800, 0, 4000) if False else (0, 800, 4000), thorough=(0, 10000, 100000)),
+            ProxyPeerMut(), GpuFamily(), BeSrvMalformed()]
